@@ -632,7 +632,7 @@ func (c16) Run(inp interface{}) Sx {
 	if in.Kind == "reconnect" {
 		return c16RunReconnect(in)
 	}
-	ln, err := net.Listen("tcp", "127.0.0.1:0")
+	ln, err := listenLoopback()
 	if err != nil {
 		return L(SBytes("HARNESS"), SBytes(err.Error()))
 	}
@@ -753,7 +753,7 @@ func c16ErrCode(err error) int64 {
 
 // c16RunReconnect: ONE Component value, one listener, len(Sessions) connections in a row.
 func c16RunReconnect(in c16In) Sx {
-	ln, err := net.Listen("tcp", "127.0.0.1:0")
+	ln, err := listenLoopback()
 	if err != nil {
 		return L(SBytes("HARNESS"), SBytes(err.Error()))
 	}
